@@ -96,7 +96,9 @@ Blame ==
   @@ "oe.res.publish" :> {"C09"} @@ "oe.res.bpublish" :> {"C09"} @@ "oe.res.bsubscribe" :> {"C09"} @@ "oe.res.bunsubscribe" :> {"C09"}
   @@ "oe.ready.publish" :> {"C09"} @@ "oe.actor.publish" :> {"C09"}
   @@ "un.flush" :> {"C12", "C02"} @@ "un.resp" :> {"C02"} @@ "un.await" :> {"C04", "C02"} @@ "un.join" :> {"C17", "C02"}
-  @@ "un.loop.closed" :> {"C05"} @@ "un.loop.deq" :> {"C02", "C05"} @@ "un.loop" :> {"C02"} @@ "un.timer" :> {"C10"} @@ "un.adv" :> {"C10", "C11"}
+  @@ "un.loop.closed" :> {"C05"} @@ "un.loop.closed.stream" :> {"C05", "C13"} @@ "un.loop.stream" :> {"C13"}
+  @@ "un.loop.deq.mailbox" :> {"C02", "C05"} @@ "un.loop.deq.timer" :> {"C10"} @@ "un.loop.deq.parent" :> {"C16"} @@ "un.loop.deq.broker" :> {"C09"} @@ "un.loop.deq.ctx" :> {"C04"}
+  @@ "un.loop" :> {"C02"} @@ "un.timer" :> {"C10"} @@ "un.adv" :> {"C10", "C11"}
   @@ "oe.cancel.send" :> {"C12"} @@ "oe.cancel.call" :> {"C02"} @@ "oe.cancel.ping" :> {"C02"} @@ "oe.cancel.join" :> {"C17"}
   @@ "oe.cancel.await_ref" :> {"C04"} @@ "oe.cancel.try_halt" :> {"C04"}
   @@ "blk.timer"  :> {"C10"}
@@ -107,8 +109,13 @@ Blame ==
   @@ "tf.k"       :> {"C10"}
   @@ "adv.vt"     :> {"C10", "C11"}
   @@ "adv.pending" :> {"C10", "C11"}
-  @@ "blk.loop.closed" :> {"C05"}
-  @@ "blk.loop.deq"    :> {"C02", "C05"}
+  @@ "blk.loop.closed" :> {"C05"} @@ "blk.loop.closed.stream" :> {"C05", "C13"} @@ "blk.loop.stream" :> {"C13"}
+  @@ "blk.loop.deq.mailbox" :> {"C02", "C05"} @@ "blk.loop.deq.ctx" :> {"C04"} @@ "blk.loop.deq.timer" :> {"C10"}
+  @@ "blk.loop.deq.parent" :> {"C16"} @@ "blk.loop.deq.broker" :> {"C09"}
+  @@ "q.loops.closed" :> {"C05"} @@ "q.loops.closed.stream" :> {"C05", "C13"} @@ "q.loops.stream" :> {"C13"}
+  @@ "q.loops.deq.mailbox" :> {"C02", "C05"} @@ "q.loops.deq.ctx" :> {"C04"} @@ "q.loops.deq.timer" :> {"C10"}
+  @@ "q.loops.deq.parent" :> {"C16"} @@ "q.loops.deq.broker" :> {"C09"}
+  @@ "cb.pb.child" :> {"C16", "C05"}
   @@ "q.unresolved" :> {"C02"}
   @@ "q.alive"    :> {"C05", "C10"}
   @@ "q.clients"  :> {"C02"}
